@@ -135,6 +135,18 @@ def cases(tier, seed):
                     d = dict(c)
                     d["semiring"] = s
                     out.append(d)
+        # the circuit families of C01 and seeded random region-graph circuits (some with frozen tensors)
+        from checks import C01
+
+        extra = [c for c in C01._hand(tier) if c.get("name") != "hetero-params"] + families.random_members(seed + 2000, 150)
+        for i, c in enumerate(extra):
+            c = dict(c)
+            if i % 4 == 1:
+                c["freeze"] = ["all", "odd", "inputs", "sums"][(i // 4) % 4]
+            s = sems[i % 3]
+            if not _sem_ok(c, s):
+                s = "sum-product"
+            out.append({"circuit": c, "via": "operands", "semiring": s})
     return out
 
 
